@@ -1,5 +1,5 @@
 """C13 — The formatter preserves programs (static necessary clauses; DESIGN §3 C13). Thin."""
-import re
+import re, json
 from .lib import *
 from .lib import _tok_has
 
@@ -42,6 +42,12 @@ def run(ctx, rep):
     rep.guarded("R13-ELIDE", lambda: r_elide(sh, rep))
     rep.rule("R13-NODROP", "no formatter method drops elements of a syntax list it prints (filter / dedup / take / skip adaptors are reviewed one by one)", floor=4)
     rep.guarded("R13-NODROP", lambda: r_nodrop(sh, rep))
+    rep.rule("R13-CAPTURE", "a capture hole is recognised by the prefix the parser gives its name, never by a substring", floor=3)
+    rep.guarded("R13-CAPTURE", lambda: r_capture(sh, rep))
+    rep.rule("R13-POSTFIX", "call, field access and tuple index print an operator expression they apply to in parentheses", floor=3)
+    rep.guarded("R13-POSTFIX", lambda: r_postfix(sh, rep))
+    rep.rule("R13-SUGAR", "`expect True = e` is shortened to `expect e` only for a plain assignment; a pipe elides a first-position hole only when it carries no label", floor=2)
+    rep.guarded("R13-SUGAR", lambda: r_sugar(sh, rep))
 
 
 def _binops(sh):
@@ -342,6 +348,9 @@ def _used_on_every_path(stmts, name):
             t = _used_on_every_path(e["then"]["stmts"], name)
             el = e.get("else")
             if el is None:
+                # an early `return` inside the branch is a path of its own: it must have used the name
+                if not t and any(x["k"] == "Return" for x in walk(e["then"])):
+                    return False
                 continue
             el_ok = _used_on_every_path(el["stmts"], name) if el["k"] == "Block" else _used_on_every_path([{"k": "ExprStmt", "e": el}], name)
             if t and el_ok:
@@ -485,7 +494,7 @@ NODROP_REVIEWED = {
     ("Formatter::module", "filter"): (1, "drops empty *documents* (sections with nothing to print), not syntax elements"),
     ("comments_before", "skip_while"): (1, "skips leading empty-line markers before the first comment; comments themselves are kept"),
     ("Formatter::pipeline", "skip"): (1, "`first()` is printed separately just above; skip(1) walks the rest"),
-    ("Formatter::pipe_capture_right_hand_side", "skip"): (1, "the first argument is the pipe's hole, elided by construction of a capture; the parser re-inserts it"),
+    ("Formatter::pipe_capture_right_hand_side", "skip"): (1, "the first argument is the pipe's unlabelled hole (R13-SUGAR checks `label: None`), elided by construction of a capture; the parser re-inserts it"),
 }
 
 
@@ -509,3 +518,87 @@ def r_nodrop(sh, rep):
     for key, (allowed, why) in NODROP_REVIEWED.items():
         if key not in per:
             rep.info("R13-NODROP reviewed entry %s no longer present (informational)" % (key,))
+
+
+# ---------------------------------------------------------------------------------------------------------
+# R13-CAPTURE / R13-POSTFIX / R13-SUGAR: printer clauses behind defects found on the pinned tree
+# ---------------------------------------------------------------------------------------------------------
+def r_capture(sh, rep):
+    """The parser names the parameter of a capture `f(_, 2)` CAPTURE_VARIABLE + "__" + index + …; printer and AST helpers
+    recognise a hole by that name. A user identifier may *contain* the marker (`x_capture`), it cannot *start* with it
+    (a leading underscore is a discard and cannot be referenced): every recogniser must test the prefix. Sibling rule
+    over all uses of the constant."""
+    n = 0
+    for rel in sh.files():
+        if not rel.startswith("crates/aiken-lang/src/") or "/tests/" in rel or rel.endswith("tests.rs"):
+            continue
+        for q, f in all_fns(sh.file(rel)):
+            if "body" not in f:
+                continue
+            for c in walk(f["body"]):
+                if c.get("k") == "MethodCall" and c["args"] and any(x.get("k") == "Path" and last(x["p"]) == "CAPTURE_VARIABLE" for x in walk(c["args"][0])) and c["m"] in ("contains", "starts_with", "ends_with", "eq", "find", "matches"):
+                    n += 1
+                    rep.check(c["m"] == "starts_with", "R13-CAPTURE", "%s#%s#recognises-by-prefix" % (rel.split("/")[-1], q), sh.loc(rel, c), "%s recognises a capture hole with `.%s(CAPTURE_VARIABLE)`: any identifier containing the marker (x_capture, my_capture_list) is treated as a hole — the formatter prints it as `_capture`, which no longer parses" % (q, c["m"]), sample={"test": c["m"]})
+    if n < 3:
+        rep.bad("R13-CAPTURE", "recognisers", "crates/aiken-lang/src/ast.rs", "only %d recogniser(s) of CAPTURE_VARIABLE found, 3 confirmed by hand (anchor)" % n)
+
+
+def r_postfix(sh, rep):
+    """`.field`, `.1st` and `(args)` bind tighter than every operator; the parser drops parentheses, so the printer must put
+    them back when the thing a postfix form applies to is an operator expression (BinOp, UnOp, PipeLine). Sibling rule
+    over the three postfix sites: the container is printed by code that mentions all three operator forms."""
+    fj = sh.file(FMT)
+    f = find_method(fj, "Formatter", "expr")
+    en = find_enum(sh.file(EXP), "UntypedExpr")
+    m = find_enum_match(f, "UntypedExpr", {v["name"] for v in en["variants"]}, min_hits=3)
+    if m is None:
+        raise AnchorMissing("match over UntypedExpr in Formatter::expr")
+    sites = []
+    for v, arm, alt in arm_table(m):
+        if v == "FieldAccess":
+            sites.append(("FieldAccess", "container", arm["body"]))
+        if v == "TupleIndex":
+            sites.append(("TupleIndex", "tuple", arm["body"]))
+    call = find_method(fj, "Formatter", "call")
+    sites.append(("Call", "fun", call["body"]))
+    OPS = ("PipeLine", "BinOp", "UnOp")
+    for name, var, body in sites:
+        text = sh.nsrc(FMT, body)
+        # helpers the site hands the container to
+        for c in walk(body):
+            if c.get("k") == "MethodCall" and sh.nsrc(FMT, c["recv"]) == "self" and c["args"] and any(x.get("k") == "Path" and x["p"] == var for x in walk(c["args"][0])) and c["m"] != "expr":
+                g = find_method(fj, "Formatter", c["m"])
+                text += sh.nsrc(FMT, g["body"])
+        missing = [o for o in OPS if "UntypedExpr::" + o not in text]
+        rep.check(not missing, "R13-POSTFIX", "%s#container-parenthesised" % name, sh.loc(FMT, body), "the %s printer prints `%s` without parenthesising %s: `(x + y).1st` / `(x |> g)(1)` / `(x |> g).foo` come out without their parentheses and re-parse as a different program" % (name, var, " / ".join(missing)), sample={"missing": missing})
+
+
+def r_sugar(sh, rep):
+    fj = sh.file(FMT)
+    a = find_method(fj, "Formatter", "assignment")
+    rep.touched(FMT, "Formatter::assignment")
+    # every arm of the final match that prints no assignment symbol must exclude back-passing in its guard
+    ms = [m for m in matches_in(a["body"]) if "patterns.first()" in sh.nsrc(FMT, m["e"])]
+    if not ms:
+        raise AnchorMissing("match patterns.first() in Formatter::assignment")
+    sym = [n["pat"]["name"] for n in walk(a["body"]) if n.get("k") == "Local" and n["pat"].get("k") == "Ident" and n.get("init") is not None and "is_backpassing" in sh.nsrc(FMT, n["init"])]
+    bad = []
+    for arm in ms[0]["arms"]:
+        body = sh.nsrc(FMT, arm["body"])
+        uses_symbol = any(re.search(r"(?<![\w.])%s\b" % re.escape(x), body) for x in sym)
+        if not uses_symbol:
+            g = sh.nsrc(FMT, arm["guard"]) if arm.get("guard") else ""
+            if "is_backpassing" not in g:
+                bad.append(arm)
+    rep.check(bool(sym) and not bad, "R13-SUGAR", "assignment#symbol-free-form-excludes-backpassing", sh.loc(FMT, bad[0]) if bad else sh.loc(FMT, ms[0]), "Formatter::assignment has a form that prints neither `=` nor `<-` (the `expect e` shorthand) and its guard does not exclude back-passing: `expect True <- g(x)` is printed as `expect g(x)` and the continuation is no longer passed to g", sample={"symbol_binding": sym})
+    p = find_method(fj, "Formatter", "pipe_capture_right_hand_side")
+    rep.touched(FMT, "Formatter::pipe_capture_right_hand_side")
+    tests = [n for n in walk(p["body"]) if n.get("k") == "Macro" and n.get("path") == "matches" and n.get("pat") is not None and "args.first()" in sh.nsrc(FMT, n["e"])]
+    ok = False
+    for t in tests:
+        for x in walk(t["pat"]):
+            if x.get("k") == "PStruct" and last(x.get("p", "")) == "CallArg":
+                for fp in x.get("fields", []):
+                    if fp.get("name") == "label" and "None" in json.dumps(fp.get("pat") or {}):
+                        ok = True
+    rep.check(bool(tests) and ok, "R13-SUGAR", "pipe#elided-hole-is-unlabelled", sh.loc(FMT, tests[0]) if tests else sh.loc(FMT, p), "the pipe printer drops a first-position hole whatever its label: `x |> g(b: _, a: 2)` becomes `x |> g(a: 2)`, which passes x as the first positional argument instead of as `b`")
